@@ -7,16 +7,19 @@
 import Driver.Family
 import PgVerif.Model.ScalarsJsonLib
 import PgVerif.Model.Scalars
+import PgVerif.Model.JsonbView
 import PgVerif.Spec.Scalars
 import PgVerif.Gen.Scalars
 namespace Driver.Fam.Scalars
 open PgVerif Driver PgVerif.Spec.Scalars PgVerif.Gen.Scalars
 
-/-- the out-of-scope decoders are never reached by these families (no array / numeric / jsonb oids); `encoding/json` is
-the library model of Model/ScalarsJsonLib.lean — the function `C04_json` is stated for -/
+/-- the array and jsonb decoders are never reached by these families (no array / jsonb oids); `DecodeNumeric` (reached by
+the bounds of a numrange, fix 15) is the model of area numjson with `Spec.parseFloatRef` for strconv.ParseFloat — the
+instance `C04_numrange` is stated for; `encoding/json` is the library model of Model/ScalarsJsonLib.lean — the function
+`C04_json` is stated for -/
 def ext : Model.Scalars.Ext :=
   { decodeArray := fun _ _ => pure (.str (Txt.asc "<array>"))
-    decodeNumeric := fun _ => pure (.str (Txt.asc "<numeric>"))
+    decodeNumeric := fun raw => (Model.decodeNumeric raw).map fun r => r.toGo Spec.parseFloatRef
     parseJSONB := fun _ => pure (.str (Txt.asc "<jsonb>"))
     jsonUnmarshal := Model.ScalarsJsonLib.jsonUnmarshal }
 
@@ -38,8 +41,7 @@ def typeTag : Val → String
                                    | .ts => "tsrange" | .tstz => "tstzrange" | .num => "numrange")
 
 def kfTags (v : Val) : List String :=
-  (if kfPgLsn v then ["kf:A10"] else []) ++ (if kfTid v then ["kf:A11"] else []) ++
-  (if kfNumRange v then ["kf:A16"] else []) ++ (if kfPath v then ["kf:A17"] else [])
+  (if kfPgLsn v then ["kf:A10"] else []) ++ (if kfTid v then ["kf:A11"] else [])
 
 def dedup (xs : List String) : List String := xs.foldl (fun acc x => if acc.contains x then acc else acc ++ [x]) []
 
